@@ -465,6 +465,38 @@ def iter_guard(repo):
     return g
 
 
+def seq_kinds(repo):
+    """SelectResults.__init__: which containers of order keys are translated key by key"""
+    tree = parse(repo, 'sqlobject/sresults.py')
+    fn = find_func(find_class(tree, 'SelectResults'), '__init__')
+    node = None
+    for st in fn.body:
+        if isinstance(st, ast.If) and isinstance(st.test, ast.Call) and ast.unparse(st.test.func) == 'isinstance' \
+                and len(st.test.args) == 2 and ast.unparse(st.test.args[0]) == 'orderBy':
+            node = st
+    if node is None:
+        raise ExtractError('SelectResults.__init__: the isinstance test on orderBy was not found')
+    ty = node.test.args[1]
+    names = [ast.unparse(e) for e in ty.elts] if isinstance(ty, ast.Tuple) else [ast.unparse(ty)]
+    kinds = []
+    for n in names:
+        if n not in ('list', 'tuple'):
+            raise ExtractError('SelectResults.__init__: unknown container type %s' % n)
+        kinds.append('.' + n)
+    ok_body = len(node.body) == 1 and (
+        _same_stmt(node.body[0], 'orderBy = list(map(self._mungeOrderBy, orderBy))')
+        or _same_stmt(node.body[0], 'orderBy = [self._mungeOrderBy(key) for key in orderBy]')
+        or _same_stmt(node.body[0], 'orderBy = [self._mungeOrderBy(x) for x in orderBy]'))
+    ok_else = len(node.orelse) == 1 and _same_stmt(node.orelse[0], 'orderBy = self._mungeOrderBy(orderBy)')
+    if not ok_body or not ok_else:
+        raise ExtractError('SelectResults.__init__: the order munging changed: %s' % ast.unparse(node))
+    src = ast.unparse(fn)
+    if "if ops.get('orderBy', sqlbuilder.NoDefault) is sqlbuilder.NoDefault:\n        ops['orderBy'] = sourceClass.sqlmeta.defaultOrder" not in src \
+            or "ops['dbOrderBy'] = orderBy" not in src:
+        raise ExtractError('SelectResults.__init__: defaultOrder / dbOrderBy handling changed')
+    return kinds
+
+
 def _b(x):
     return 'true' if x else 'false'
 
@@ -481,6 +513,7 @@ def extract(repo):
     miss = alt_miss(repo)
     nr = nary(repo)
     guard = iter_guard(repo)
+    kinds = seq_kinds(repo)
     L = [HEADER % 'query', 'import SqlObjVerif.Model.QuerySyn', '', 'namespace SqlObjVerif.Query.Extracted', '']
     L += ['/-- `_SO_columnClause`: operator used when the keyword value is None / is a value -/',
           'def clauseOpNone : CondOp := %s' % none_op,
@@ -520,6 +553,8 @@ def extract(repo):
           '/-- `AND(*ops)` / `OR(*ops)`: (connective of the SQLOp built, helper applied to the tail) -/',
           'def andFn : BoolOp × BoolOp := (%s, %s)' % nr['AND'],
           'def orFn : BoolOp × BoolOp := (%s, %s)' % nr['OR'], '',
+          '/-- `SelectResults.__init__`: containers of order keys that are translated key by key -/',
+          'def mungedSeqKinds : List SeqKind := [%s]' % ', '.join(kinds), '',
           '/-- `Iteration.next`: when a fetched row is returned as None -/',
           'def iterNullGuard : IdGuard := %s' % guard, '',
           'end SqlObjVerif.Query.Extracted']
